@@ -12,7 +12,6 @@ Local Open Scope nat_scope.
 Section GenTraces.
   Variable K : Type.
   Variable ind : action -> action -> bool.
-  Hypothesis ind_sym : forall a b, ind a b = ind b a.
 
   Inductive gswaps : list action -> list action -> Prop :=
     | gsw_refl : forall l, gswaps l l
